@@ -372,7 +372,7 @@ fn budget_check(white: bool) {
     vcover!();
     std::mem::forget((rd, out, err, cmd));
 }
-// @h prop=C10 unwind=8 rec=2 cutfmt=1 uw=opt_execute.0:204;opt_execute.1:204;opt_execute.2:204;opt_execute.3:204;opt_execute.4:204;opt_execute.5:204;opt_execute.6:204;opt_execute.7:204;opt_execute.8:204 unwind_is_violation=opt_execute timeout=10800 mem=24 tier=thorough kind=stretch what=endless_label-jump_loop:gives_up_after_100_jumps,state_rolled_back
+// @h prop=C10 unwind=8 rec=2 cutfmt=1 uw=opt_execute.0:204;opt_execute.1:204;opt_execute.2:204;opt_execute.3:204;opt_execute.4:204;opt_execute.5:204;opt_execute.6:204;opt_execute.7:204;opt_execute.8:204 unwind_is_violation=opt_execute timeout=18000 mem=24 tier=thorough kind=stretch what=endless_label-jump_loop:gives_up_after_100_jumps,state_rolled_back
 #[cfg_attr(kani, kani::proof)]
 #[cfg_attr(kani, kani::stub(crate::number::num::Num::add, m_num_add))]
 #[cfg_attr(kani, kani::stub(crate::number::num::Num::mul, m_num_mul))]
@@ -383,7 +383,7 @@ fn budget_check(white: bool) {
 pub fn budget_label() {
     budget_check(false);
 }
-// @h prop=C10 unwind=8 rec=2 cutfmt=1 uw=opt_execute.0:204;opt_execute.1:204;opt_execute.2:204;opt_execute.3:204;opt_execute.4:204;opt_execute.5:204;opt_execute.6:204;opt_execute.7:204;opt_execute.8:204 unwind_is_violation=opt_execute timeout=10800 mem=24 tier=thorough kind=stretch what=endless_white-heart_loop:gives_up_after_100_jumps,state_rolled_back
+// @h prop=C10 unwind=8 rec=2 cutfmt=1 uw=opt_execute.0:204;opt_execute.1:204;opt_execute.2:204;opt_execute.3:204;opt_execute.4:204;opt_execute.5:204;opt_execute.6:204;opt_execute.7:204;opt_execute.8:204 unwind_is_violation=opt_execute timeout=18000 mem=24 tier=thorough kind=stretch what=endless_white-heart_loop:gives_up_after_100_jumps,state_rolled_back
 #[cfg_attr(kani, kani::proof)]
 #[cfg_attr(kani, kani::stub(crate::number::num::Num::add, m_num_add))]
 #[cfg_attr(kani, kani::stub(crate::number::num::Num::mul, m_num_mul))]
